@@ -9,7 +9,8 @@
 (*     "UM" UnknownMetaMessage(0x60):          x stands for data (x,)      *)
 (*     "RT" Message('clock'), a real-time message: no attribute but time   *)
 (*          (x is a constant placeholder; every x override is rejected)    *)
-(* x ranges over {1, 2} and the out-of-range value Bad; UnknownMetaMessage *)
+(* x ranges over {1, 2}; overrides also try the out-of-range value Bad and  *)
+(* Twin (the float 1.0, equal to 1 but ill-typed); UnknownMetaMessage *)
 (* validates nothing, so Bad is a legal value there - which is exactly     *)
 (* what constructing the class afresh with that value does.                *)
 (* Actions name objects by index; an action on object i may change only    *)
@@ -20,6 +21,8 @@ EXTENDS Integers, Sequences, FiniteSets, TLC
 CONSTANTS MaxObjs, MaxOps, Classes
 
 Bad == 999
+Twin == 777      \* the float 1.0: equal to the valid value 1 but not an integer
+XVals(c) == IF c = "UM" THEN {1, 2, Bad} ELSE {1, 2, Bad, Twin}
 Obj(c, f, x, t) == [cls |-> c, frozen |-> f, x |-> x, time |-> t]
 
 VARIABLES heap, hist
@@ -47,7 +50,7 @@ Copy == /\ ~Full
         /\ \E i \in DOMAIN heap :
              \/ /\ heap' = Append(heap, heap[i])                       \* no overrides
                 /\ Record(Step("copy", i, 0, "", 0, TRUE, Len(heap) + 1))
-             \/ \E v \in {1, 2, Bad} :
+             \/ \E v \in XVals(heap[i].cls) :
                   IF ValidX(heap[i].cls, v)
                   THEN /\ heap' = Append(heap, [heap[i] EXCEPT !.x = v])
                        /\ Record(Step("copy", i, 0, "x", v, TRUE, Len(heap) + 1))
@@ -70,12 +73,18 @@ Thaw == /\ ~Full
              /\ heap' = Append(heap, [heap[i] EXCEPT !.frozen = FALSE])
              /\ Record(Step("thaw", i, 0, "", 0, TRUE, Len(heap) + 1))
 
-SetAttr == \E i \in DOMAIN heap : \E a \in {"x", "time"} : \E v \in {1, 2, Bad} :
+SetAttr == \E i \in DOMAIN heap : \E a \in {"x", "time"} :
+           \E v \in (IF a = "x" THEN XVals(heap[i].cls) ELSE {1, 2, Bad}) :
              LET ok == ~heap[i].frozen /\ (IF a = "x" THEN ValidX(heap[i].cls, v) ELSE TRUE) IN
              /\ heap' = IF ok THEN [heap EXCEPT ![i] = IF a = "x" THEN [@ EXCEPT !.x = v]
                                                         ELSE [@ EXCEPT !.time = v]]
                         ELSE heap
              /\ Record(Step("setattr", i, 0, a, v, ok, 0))
+
+\* attributes cannot be deleted, frozen or not
+DelAttr == \E i \in DOMAIN heap : \E a \in {"x", "time"} :
+             /\ heap' = heap
+             /\ Record(Step("delattr", i, 0, a, 0, FALSE, 0))
 
 \* equal frozen messages hash equal and collide as dictionary keys
 SameValue(a, b) == a.cls = b.cls /\ a.x = b.x /\ a.time = b.time
@@ -96,7 +105,7 @@ NoneMaps == /\ heap' = heap
             /\ \E op \in {"freeze_none", "thaw_none"} : Record(Step(op, 0, 0, "", 0, TRUE, 0))
 
 Next == /\ Len(hist) < MaxOps
-        /\ (New \/ Copy \/ Freeze \/ Thaw \/ SetAttr \/ HashEq \/ HashVariant \/ NoneMaps)
+        /\ (New \/ Copy \/ Freeze \/ Thaw \/ SetAttr \/ DelAttr \/ HashEq \/ HashVariant \/ NoneMaps)
 Spec == Init /\ [][Next]_vars
 
 \* ---- properties ----
@@ -116,6 +125,7 @@ AllValidOrUnknown == \A k \in DOMAIN heap : heap[k].cls = "RT" \/ ValidX(heap[k]
 ClsCode(c) == CASE c = "M" -> 1 [] c = "MM" -> 2 [] c = "SS" -> 3 [] c = "UM" -> 4 [] c = "RT" -> 5
 OpCode(o) == CASE o = "new" -> 1 [] o = "copy" -> 2 [] o = "freeze" -> 3 [] o = "thaw" -> 4
                [] o = "setattr" -> 5 [] o = "hash" -> 6 [] o = "freeze_none" -> 7 [] o = "thaw_none" -> 8 [] o = "hashf" -> 9
+               [] o = "delattr" -> 10
 HeapFlat(h) == <<Len(h)>> \o [k \in 1..(4 * Len(h)) |->
                   LET o == h[((k - 1) \div 4) + 1] IN
                   CASE (k - 1) % 4 = 0 -> ClsCode(o.cls) [] (k - 1) % 4 = 1 -> (IF o.frozen THEN 1 ELSE 0)
